@@ -17,6 +17,7 @@ import (
 	"google.golang.org/protobuf/proto"
 
 	"github.com/dgraph-io/badger/v4/pb"
+	"github.com/dgraph-io/badger/v4/vhook"
 	"github.com/dgraph-io/badger/v4/y"
 	"github.com/dgraph-io/ristretto/v2/z"
 )
@@ -173,6 +174,7 @@ func (st *Stream) produceRanges(ctx context.Context) {
 func (st *Stream) produceKVs(ctx context.Context, threadId int) error {
 	st.numProducers.Add(1)
 	defer st.numProducers.Add(-1)
+	vhook.PointID("stream.producerStart", uint64(threadId+1))
 
 	var txn *Txn
 	if st.readTs > 0 {
@@ -301,6 +303,7 @@ func (st *Stream) produceKVs(ctx context.Context, threadId int) error {
 				// Done with the keys.
 				return nil
 			}
+			vhook.PointID("stream.rangeReceived", uint64(threadId+1))
 			if err := iterate(kr); err != nil {
 				return err
 			}
